@@ -79,6 +79,13 @@ TE(e, p) ==
     [] e.e = "list"  -> << O("InitList", p) >>
                           \o Flat([j \in 1..Len(e.xs) |-> TE(e.xs[j], p) \o << O("Element", p) >>])
     [] e.e = "grp"   -> TE(e.x, p)
+    [] e.e = "con"   ->        \* translate.rs Expression::Constraint: each arm's operands, then BuildConstraint(arm kinds)
+         Flat([j \in 1..Len(e.arms) |->
+                 IF e.arms[j].a = "shape" THEN TE(e.arms[j].x, p)
+                 ELSE (IF e.arms[j].lo = << >> THEN << OVal(Null, p) >> ELSE TE(e.arms[j].lo[1], p))
+                        \o (IF e.arms[j].hi = << >> THEN << OVal(Null, p) >> ELSE TE(e.arms[j].hi[1], p))])
+           \o << [op |-> "BuildConstraint", p |-> p,
+                  arms |-> [j \in 1..Len(e.arms) |-> IF e.arms[j].a = "shape" THEN "exact" ELSE "range"]] >>
     [] e.e = "not"   -> TE(e.x, p) \o << O("Not", p) >>
     [] e.e = "fail"  -> TE(e.x, p) \o << OVal(StrV(S_userdef), p), O("Add", p), O("Bang", p) >>
     [] e.e = "trace" -> << OVal(StrV(<< >>), p) >> \o TE(e.x, p) \o << OHook("Trace", p) >>
@@ -163,6 +170,8 @@ TE(e, p) ==
 
 TStmt(st, p) ==
   IF st.s = "expr" THEN TE(st.x, p) \o << O("Pop", p) >>
+  ELSE IF st.s = "clet"        \* let name :: constraint = value
+         THEN << OSym(st.nm, p) >> \o TE(st.x, p) \o TE(st.con, p) \o << O("CheckConstraint", p), O("Bind", p) >>
   ELSE << OSym(st.nm, p) >> \o TE(st.x, p) \o << O("Bind", p) >>       \* let
 
 TStmts(stmts, p) == Flat([j \in 1..Len(stmts) |-> TStmt(stmts[j], p)])
@@ -178,5 +187,6 @@ OpView(o) ==
     [] o.op = "Cast" -> [op |-> "Cast", ty |-> o.ty]
     [] o.op = "Runtime" -> [op |-> "Runtime", hook |-> o.hook]
     [] o.op = "PANIC" -> [op |-> "PANIC", site |-> o.site]
+    [] o.op = "BuildConstraint" -> [op |-> "BuildConstraint", arms |-> o.arms]
     [] OTHER -> [op |-> o.op]
 =============================================================================
